@@ -44,6 +44,8 @@ def _geoms(tier):
         dict(cb=9, ver=3, W=3, at="0", alpha="V3", layout="l1_first", cut=0, hl=112),
         dict(cb=9, ver=2, W=3, at="straddle", alpha="V2", layout="l2_first", cut=100, v2="backing", backing="longer"),
         dict(cb=12, ver=3, W=3, at="0", alpha="V3", layout="l1_first", cut=0, hl=104, w4=True),
+        # 104-byte header (QEMU < 5.1) directly followed by a header extension whose first byte is not zero
+        dict(cb=12, ver=3, W=3, at="0", alpha="V3", layout="l1_first", cut=0, hl=104, featext=True, only=[B.U, B.N, B.C]),
         dict(cb=12, ver=3, W=3, at="straddle", alpha="V3", layout="l2_reversed", cut=1000, hl=112, backing="shorter"),
         dict(cb=12, ver=2, W=3, at="absent", alpha="V2", layout="tables_after_data", cut=0, v2="ext"),
         dict(cb=16, ver=3, W=3, at="straddle", alpha="V3", layout="l1_first", cut=512, hl=112, tbase=GB4, dbase=1 << 40,
@@ -79,7 +81,8 @@ def _geoms(tier):
 
 
 def _ext_geoms(tier):
-    q = [dict(cb=14, bg="u", kind="single", positions="quick"), dict(cb=14, bg="a", kind="single", positions="quick"),
+    q = [dict(cb=14, kind="pair", at="straddle", thin=3),
+         dict(cb=14, bg="u", kind="single", positions="quick"), dict(cb=14, bg="a", kind="single", positions="quick"),
          dict(cb=14, bg="z", kind="single", positions="quick"), dict(cb=14, kind="pair"),
          dict(cb=16, bg="a", kind="single", positions="mid", backing="shorter")]
     if tier == "quick":
@@ -134,6 +137,11 @@ def _window(g):
 def run_shard(shard, ctx):
     g = shard["geom"]
     i, k = shard["slice"]
+    if shard["kind"] == "ext" and g.get("thin"):
+        for n, case in enumerate(sliced(_ext_cases(g), i, k)):
+            if n % g["thin"] == 0:
+                run_case(case, ctx)
+        return
     if shard["kind"] == "std":
         W = g["W"]
         alpha = g.get("only") or ALPHAS[g["alpha"]]
@@ -229,6 +237,8 @@ def _case_std(case, ctx):
     bn, how = _backing(g, size, cs)
     if bn is not None:
         bname = "base-é.img"
+    if g.get("featext"):
+        exts = [(B.EXT_FEATURE_TABLE, bytes([0, 0]) + b"dirty bit".ljust(46, b"\0"))]
     if g["ver"] == 2:
         if g.get("v2") == "ext":
             exts = [(0x12345678, b"\xff" * 40), (0, b"")]
@@ -307,7 +317,10 @@ def _case_ext(case, ctx):
     sub = cs // 32
     clusters, slots = case["clusters"], case["slots"]
     buf = bootstrap.bufsize()
-    total = len(clusters) + 1
+    at = 0
+    if g.get("at") == "straddle":
+        at = cs // 16 - 1  # the pair sits on both sides of the end of the first extended-L2 table (16-byte entries)
+    total = at + len(clusters) + 1
     size = total * cs - (sub // 2 if len(clusters) == 1 else 0)
     states = clusters + [{"kind": B.U, "sub": ["u"] * 32}]
     slots = list(slots) + [None]
@@ -320,8 +333,8 @@ def _case_ext(case, ctx):
         from mc.models import DATA, GuestDisk
 
         parent = GuestDisk(bn, cs, [DATA] * ((bn + cs - 1) // cs), 2)
-    img, _ = B.build(states, slots, cb, 3, size, ext=True, backing_name="b.raw" if bn is not None else None)
-    disk = B.model(states, cb, size, 0, total, 1, parent)
+    img, _ = B.build(states, slots, cb, 3, size, at, total, ext=True, backing_name="b.raw" if bn is not None else None)
+    disk = B.model(states, cb, size, at, total, 1, parent)
     ctx.model([g, clusters, slots])
     ctx.executions += 1
     ctx.sample(case)
@@ -335,21 +348,30 @@ def _case_ext(case, ctx):
                 if k == 0 or c["sub"][k] != c["sub"][k - 1] or k in (1, 31):
                     interesting.add(ci * 32 + k)
         interesting |= {0, 32 * len(clusters)}
+        base = at * cs
         for s in sorted(interesting):
             for d in (-1, 0, 1):
-                pts.add(s * sub + d)
-        pts |= {size - 1, size, size + 1, cs - 1, cs, cs + 1, (buf // sub + 1) * sub if buf < cs else cs}
-        pts = sorted(p for p in pts if 0 <= p <= size + 1)
+                pts.add(base + s * sub + d)
+        pts |= {size - 1, size, size + 1, base + cs - 1, base + cs, base + cs + 1,
+                base + ((buf // sub + 1) * sub if buf < cs else cs)}
+        pts = sorted(p for p in pts if max(0, base - 1) <= p <= size + 1)
         reqs = request_pairs(pts)
     subject = "qcow2.extl2" + (".backing" if bn is not None else "")
+    base_off = at * cs
     with ctx.watch(case, 90):
         q = _open(ctx, case, img, None, backing_fh, subject, img.size > (8 << 20))
         if q is None:
             return
         disk.materialize()
         # per sub-cluster state/slot vectors for the non-triviality rule
-        st = []
-        for c in states:
-            st += list(c["sub"])
-        compare_reads(ctx, case, q, disk, reqs, subject + ".read", st, list(range(len(st))), sub,
-                      [disk.source(i * sub) for i in range(len(st))])
+        st = ["u"] * (32 * at) if at <= 64 else None
+        if st is not None:
+            for c in states:
+                st += list(c["sub"])
+            compare_reads(ctx, case, q, disk, reqs, subject + ".read", st, list(range(len(st))), sub,
+                          [disk.source(i * sub) for i in range(len(st))])
+        else:
+            ctx.nontrivial += 1
+            for i in range(32 * len(clusters)):
+                ctx.outcome(disk.source(base_off + i * sub))
+            compare_reads(ctx, case, q, disk, reqs, subject + ".straddle.read")
